@@ -309,6 +309,9 @@ class Generator:
                 elif d == "@open":
                     self.do_open(arg, rel, i + 1)
                     i += 1
+                elif d == "@derive_ord":
+                    self.do_derive_ord(arg, rel, i + 1)
+                    i += 1
                 elif d == "@close":
                     if not self.open_container:
                         raise GenError(f"{rel}:{i+1}: @close without @open")
@@ -339,6 +342,8 @@ class Generator:
             if s.startswith("//"):
                 continue
             m = self.FN_RE.match(ln)
+            if m and k > 0 and "external_body" in lines[k - 1]:
+                m = None
             if m and m.group(1) in ("proof", "exec") or (m and " spec " not in " " + ln and "spec fn" not in ln and m.group(1) is None and re.match(r"^\s*(pub\s+)?fn\s", ln)):
                 kind = "lemma" if m.group(1) == "proof" else "fn"
                 self.obligations.append({
@@ -722,6 +727,35 @@ class Generator:
                            "derive_in_source": it["derive"], "variants": [v["name"] for v in it["variants"]],
                            "spec": {"file": rel, "line": lno}, "rewrites": sorted(set(rew))})
         return it
+
+    def do_derive_ord(self, arg, rel, lno):
+        """@derive_ord <file> <Struct> <specfn>: emit the meaning of #[derive(PartialOrd, Ord)] for a struct of
+        integer fields -- lexicographic comparison in field declaration order -- generated from the field order
+        and derive list found in the source (so that swapping fields changes the spec)."""
+        toks = arg.split()
+        fspec, name, fn = toks[0], toks[1], toks[2]
+        src = SourceIndex.load(fspec)
+        it = src.find_item("struct", name)
+        if "PartialOrd" not in it["derive"] or "Ord" not in it["derive"]:
+            raise GenError(f"{rel}:{lno}: anchor lost: struct {name} no longer derives PartialOrd and Ord (derive list: {it['derive']})")
+        ints = {"i8", "i16", "i32", "i64", "i128", "u8", "u16", "u32", "u64", "u128", "usize", "isize"}
+        body = ""
+        for f in it["fields"]:
+            if f["ty_text"] not in ints:
+                raise GenError(f"{rel}:{lno}: @derive_ord supports integer fields only, {name}.{f['name']}: {f['ty_text']}")
+            body += f"    if a.{f['name']} < b.{f['name']} {{ Ordering::Less }} else if a.{f['name']} > b.{f['name']} {{ Ordering::Greater }} else\n"
+        body += "    { Ordering::Equal }\n"
+        txt = (f"/// generated by @derive_ord from the field order of `struct {name}` ({', '.join(f['name'] for f in it['fields'])}) in {fspec}\n"
+               f"pub open spec fn {fn}(a: {name}, b: {name}) -> Ordering {{\n{body}}}\n"
+               f"impl PartialOrdSpecImpl for {name} {{\n"
+               f"    open spec fn obeys_partial_cmp_spec() -> bool {{ true }}\n"
+               f"    open spec fn partial_cmp_spec(&self, o: &Self) -> Option<Ordering> {{ Some({fn}(*self, *o)) }}\n}}\n"
+               f"impl OrdSpecImpl for {name} {{\n"
+               f"    open spec fn obeys_cmp_spec() -> bool {{ true }}\n"
+               f"    open spec fn cmp_spec(&self, o: &Self) -> Ordering {{ {fn}(*self, *o) }}\n}}")
+        self.em.emit(txt, {"kind": "gen", "item": f"derive_ord {name}"})
+        self.assumptions.append({"kind": "derive-semantics", "name": f"#[derive(PartialOrd, Ord)] on {name} compares fields lexicographically in declaration order",
+                                 "where": f"{rel}:{lno}"})
 
     def do_open(self, arg, rel, lno):
         parts = [p.strip() for p in arg.split("|")]
